@@ -41,6 +41,7 @@ type FuncCtx struct {
 	funcName    string
 	guard       Term
 	uncontracted    map[string]bool
+	autoInlined     map[string]bool
 	calleeContracts map[string]bool
 	pureSig     map[string]string
 	frameN      int
@@ -154,6 +155,7 @@ type Frame struct {
 	loopRuns  map[*loop]*loopRun
 	cellTypes map[string]types.Type
 	addrCache map[string]Term // materialised address per local cell (+ static field path)
+	anchorOrd map[string]int
 	allocIDs  map[*ssa.Alloc]int
 	cellClo   map[string]*Closure
 	children  []*Frame
@@ -867,7 +869,7 @@ func (fr *Frame) run(st *State, reach Term) error {
 	// iteration counters of unrolled loops: -1 until the loop is reached
 	if fr.con != nil {
 		for _, l := range fr.loops.heads {
-			if fr.con.Unroll[l.ordinal] > 0 {
+			if fr.unrollCount(l) > 0 {
 				iterKey := fmt.Sprintf("U:loop%d@%d", l.ordinal, fr.frameID)
 				c.registerKey(iterKey, c.sc.idxSort(), true)
 				st.set(iterKey, c.sc.idxLit(-1))
@@ -933,7 +935,15 @@ func (fr *Frame) unrollCount(l *loop) int {
 	if fr.con == nil {
 		return 0
 	}
-	return fr.con.Unroll[l.ordinal]
+	if n := fr.con.Unroll[l.ordinal]; n > 0 {
+		return n
+	}
+	for a, n := range fr.con.UnrollAnchor {
+		if fr.anchorOrdinal(a) == l.ordinal {
+			return n
+		}
+	}
+	return 0
 }
 
 // runUnrolled executes loop l by unrolling it n times; an "unwind" obligation states that no
@@ -1137,11 +1147,46 @@ func (fr *Frame) loopClauses(l *loop, kind string) []*Clause {
 		src = fr.con.Decreases
 	}
 	for _, cl := range src {
+		if cl.LoopAnchor != "" {
+			if fr.anchorOrdinal(cl.LoopAnchor) == l.ordinal {
+				out = append(out, cl)
+			}
+			continue
+		}
 		if cl.Loop == l.ordinal {
 			out = append(out, cl)
 		}
 	}
 	return out
+}
+
+// anchorOrdinal: the ordinal of the innermost loop of this function whose body contains a call of
+// `callee` (0 when there is none). Loops named this way keep their clauses when loops are reordered.
+func (fr *Frame) anchorOrdinal(callee string) int {
+	if fr.anchorOrd == nil {
+		fr.anchorOrd = map[string]int{}
+	}
+	if o, ok := fr.anchorOrd[callee]; ok {
+		return o
+	}
+	best, bestSize := 0, 0
+	for _, l := range fr.loops.heads {
+		has := false
+		for b := range l.body {
+			for _, in := range b.Instrs {
+				if ci, ok := in.(ssa.CallInstruction); ok {
+					if k := fr.c.v.calleeKey(ci.Common()); k != "" && fr.c.v.keyMatches(k, callee) {
+						has = true
+					}
+				}
+			}
+		}
+		if has && (best == 0 || len(l.body) < bestSize) {
+			best, bestSize = l.ordinal, len(l.body)
+		}
+	}
+	fr.anchorOrd[callee] = best
+	return best
 }
 
 type loopRun struct {
